@@ -66,12 +66,8 @@ pub fn main_campaign() -> SimCampaign {
             // only the last client misbehaves (to provoke Disconnect notifications)
             let last = h.clients.len().saturating_sub(1);
             for op in h.ops.iter_mut() {
-                if let Op::Raw { c, pkt, .. } = op {
+                if let Op::Raw { c, .. } = op {
                     *c = last;
-                    // (a PUBREL carrying v5 properties is region R12)
-                    if let Raw::PubRelProps(id) = pkt {
-                        *pkt = Raw::PubRel(*id);
-                    }
                 }
             }
             h
@@ -84,9 +80,13 @@ pub fn plan(_tier: Tier) -> Plan {
     // the misbehaving client is not asserted on
     m.flags.witnesses = Some(vec![0, 1, 2]);
     Plan {
-        campaigns: vec![Box::new(m)],
+        campaigns: {
+            let mut c: Vec<Box<dyn DynCampaign>> = vec![Box::new(m)];
+            c.extend(crate::fullstack::props::c20_campaigns());
+            c
+        },
         enumerators: vec![],
-        rule: "Histories with a generated mix of v4 and v5 clients (publishers with every subset of the v5 publish properties in 70% of the publishes, subscribers with and without subscription identifiers and broker topic aliases, QoS 0-2, retained, persistent sessions, one misbehaving client provoking Disconnect notifications). Every notification a client drains (Forward, every ack kind, Disconnect) is converted with the crate's own Into<Option<Packet>> and written with that client's protocol (V4.write / V5.write) under catch_unwind: it must succeed, and the bytes must decode in rumqttc's decoder of that version to the same topic and payload, leaving no trailing bytes; towards v5 the publisher's properties are preserved (topic alias excepted), and the C01 delivery oracle applies. Non-trivial: >=1 v5 publish carrying properties was delivered to a v4 subscriber.".into(),
+        rule: "Histories with a generated mix of v4 and v5 clients (publishers with every subset of the v5 publish properties in 70% of the publishes, subscribers with and without subscription identifiers and broker topic aliases, QoS 0-2, retained, persistent sessions, one misbehaving client provoking Disconnect notifications). Every notification a client drains (Forward, every ack kind, Disconnect) is converted with the crate's own Into<Option<Packet>> and written with that client's protocol (V4.write / V5.write) under catch_unwind: it must succeed, and the bytes must decode in rumqttc's decoder of that version to the same topic and payload, leaving no trailing bytes; towards v5 the publisher's properties are preserved (topic alias excepted), and the C01 delivery oracle applies. Non-trivial: >=1 v5 publish carrying properties was delivered to a v4 subscriber. ".to_string() + crate::fullstack::props::C20_E5_RULE,
         assumptions: vec!["message_expiry_interval is not generated (the router decrements it from the wall clock)".into()],
         min_nontrivial: 100,
     }
